@@ -13,7 +13,7 @@ import numpy as np
 from .execute import Execution, step_dsts, RaggedArray
 from .syntax import Syn
 
-INT_DTYPES = ["int8", "int16", "int32", "int64", "uint8"]
+INT_DTYPES = ["int8", "int16", "int32", "int64", "uint8", "uint16", "uint32", "uint64"]
 FLOAT_DTYPES = ["float32", "float64"]
 ALL_DTYPES = ["bool"] + INT_DTYPES + FLOAT_DTYPES
 HUGE = 2 ** 40       # a slice bound far beyond any row end (and beyond the 32-bit index range)
@@ -150,6 +150,8 @@ def gen_rowsel(rng, n, P, unique=False):
     if kind == "sl":
         a, b, step = _wild_bounds(rng, n, P) if wild else _window(rng, n, P)
         cls = "sl" + ("-" if (step or 1) < 0 else "+") + ("n" if abs(step or 1) > 1 else "1")
+        if rng.random() < 0.08:
+            return ["sl", a, b, step, "np"], cls
         return ["sl", a, b, step], cls
     if kind in ("list", "arr"):
         if n == 0:
@@ -161,6 +163,11 @@ def gen_rowsel(rng, n, P, unique=False):
         else:
             k = rng.randint(0 if wild else 1, n + 2)
             rows = [rng.randint(-n, n - 1) for _ in range(k)]
+        if kind == "arr" and rows and rng.random() < 0.4:
+            fits = [d for d in ("int8", "int16", "int32", "uint8", "uint16", "uint32", "uint64", "intp")
+                    if all(int(np.iinfo(d).min) <= r <= int(np.iinfo(d).max) for r in rows)]
+            if fits:
+                return ["arr", rows, rng.choice(fits)], kind
         return [kind, rows], kind + ("0" if not rows else "")
     mask = [1 if rng.random() < 0.65 else 0 for _ in range(n)]
     if n and not wild and not any(mask):
@@ -177,6 +184,8 @@ def gen_colslice(rng, maxlen, P):
     else:
         a, b, step = _window(rng, maxlen, P, lo_bias=True)
     cls = "c" + ("-" if (step or 1) < 0 else "+") + ("n" if abs(step or 1) > 1 else "1")
+    if rng.random() < 0.08:
+        return ["sl", a, b, step, "np"], cls
     return ["sl", a, b, step], cls
 
 
@@ -337,7 +346,7 @@ class Generator:
             return
         n, lens, dt = self.info(v)
         i, cls = self._row_int(n)
-        self.emit({"op": "getitem", "src": v, "ix": [self.rng.choice(["int", "int", "npint"]), i]},
+        self.emit({"op": "getitem", "src": v, "ix": [self.rng.choice(["int", "int", "npint", "int0d"]), i]},
                   f"row[{cls}]")
 
     def g_elem(self, v=None, form=None):
